@@ -113,10 +113,10 @@ fn markdown_comments_parser() -> anyhow::Result<impl CommentsParser> {
             let start_search = prefix_idx + 5;
             let open_idx = comment[start_search..]
                 .find(|c| ['(', '"', '\''].contains(&c))
-                .map(|i| i + start_search)
-                .expect("comment is expected to have a title delimiter");
+                .map(|i| i + start_search)?;
 
-            let open_char = comment.chars().nth(open_idx).unwrap();
+            // `open_idx` is a byte index.
+            let open_char = comment[open_idx..].chars().next()?;
             let close_char = match open_char {
                 '(' => ')',
                 '"' => '"',
@@ -124,9 +124,10 @@ fn markdown_comments_parser() -> anyhow::Result<impl CommentsParser> {
                 _ => unreachable!(),
             };
 
+            // The closing delimiter must come after the opening one.
             let close_idx = comment
                 .rfind(close_char)
-                .expect("comment is expected to end with matching delimiter");
+                .filter(|close_idx| *close_idx > open_idx)?;
 
             let mut result = String::with_capacity(comment.len());
             result.push_str(&comment[..prefix_idx]);
